@@ -6,7 +6,8 @@
 # Results: /verif/sensitivity/RESULTS.tsv and /verif/seeded/RESULTS.tsv.   usage: tools/regression_isolated.sh [sens|seeds|all]
 set -u
 what="${1:-all}"
-R=/tmp/wt/regr-repo; V=/tmp/verif-regr
+TAG="${REGR_TAG:-}"; FILTER="${REGR_FILTER:-.}"   # REGR_TAG: run several shards side by side; REGR_FILTER: regex on item names
+R=/tmp/wt/regr-repo$TAG; V=/tmp/verif-regr$TAG
 rm -rf "$V"; git -C /repo worktree remove --force "$R" 2>/dev/null; git -C /repo worktree prune
 git -C /repo worktree add --detach "$R" HEAD >/dev/null 2>&1 || exit 2
 mkdir -p "$V" && rsync -a --exclude target --exclude replays --exclude .git /verif/ "$V"/
@@ -23,8 +24,8 @@ run_one() {  # name diff expect out miri(0/1)
   if [ -z "$expect" ]; then run="C03 C11 C12 C13 C14 C15 C16 C18"; else run="$expect"; fi
   for id in $run; do
     if [ "$miri" = 1 ] || [ -z "$expect" ]; then unset VERIF_SKIP_MIRI; else export VERIF_SKIP_MIRI=1; fi
-    ./check "$id" quick > /tmp/regr_$id.log 2>&1; local rc=$?
-    if [ $rc -eq 1 ]; then fired="$fired $id:$(grep -o 'clause=[a-z_0-9]*' /tmp/regr_$id.log | cut -d= -f2 | sort -u | tr '\n' ',' )"; fi
+    ./check "$id" quick > /tmp/regr${TAG}_$id.log 2>&1; local rc=$?
+    if [ $rc -eq 1 ]; then fired="$fired $id:$(grep -o 'clause=[a-z_0-9]*' /tmp/regr${TAG}_$id.log | cut -d= -f2 | sort -u | tr '\n' ',' )"; fi
     if [ $rc -ge 2 ]; then errs="$errs $id:exit$rc"; fi
   done
   git -C "$R" checkout -- . ; git -C "$R" clean -fdq
@@ -37,18 +38,20 @@ if [ "$what" = sens ] || [ "$what" = all ]; then
   out="$V/sensitivity/RESULTS.tsv"; : > "$out"
   for d in sensitivity/*.diff; do
     name=$(basename "$d" .diff); expect=$(cat "sensitivity/$name.expect")
+    echo "$name" | grep -Eq "$FILTER" || continue
     miri=0; [ "$name" = "c15-static-mut-scratch-race" ] && miri=1
-    run_one "$name" "$V/$d" "$expect" "$out" "$miri"; cp "$out" /verif/sensitivity/RESULTS.tsv
+    run_one "$name" "$V/$d" "$expect" "$out" "$miri"; cp "$out" /verif/sensitivity/RESULTS$TAG.tsv
   done
 fi
 if [ "$what" = seeds ] || [ "$what" = all ]; then
   out="$V/seeded/RESULTS.tsv"; : > "$out"
   for m in seeded/*/meta.json; do
     dir=$(dirname "$m"); name=$(basename "$dir")
+    echo "$name" | grep -Eq "$FILTER" || continue
     expect=$(python3 -c "import json;print(' '.join(json.load(open('$m'))['caught_by'].keys()))")
     d="$V/$dir/patch.diff"; [ -f "$V/$dir/patch.rebased.diff" ] && d="$V/$dir/patch.rebased.diff"
     miri=0; case "$expect" in *C13*|*C15*) miri=1;; esac
-    run_one "$name" "$d" "$expect" "$out" "$miri"; cp "$out" /verif/seeded/RESULTS.tsv
+    run_one "$name" "$d" "$expect" "$out" "$miri"; cp "$out" /verif/seeded/RESULTS$TAG.tsv
   done
 fi
 git -C /repo worktree remove --force "$R"; rm -rf "$V"
